@@ -4,7 +4,10 @@ proof:          lean/MPilot/Props/C14.lean
 correspondence: every directed graph with a cycle on up to 3 commands (thorough: 4) in every textual order, sampled graphs on 4-5 commands,
                 references through direct parameters and lists; real Program.run (interpreter recursion limit lowered) vs model
 oracles:        run() raises RecursiveModelStructure; nothing executed; acyclic graphs (incl. diamonds, forward references, names that are
-                substrings of one another) are not rejected; a cycle added through the API after a successful run is rejected too
+                substrings of one another) are not rejected; a cycle added through the API after a successful run is rejected too;
+                rings and chains leading into a ring of thousands of commands (longer than the interpreter's stack is deep) are rejected, not
+                answered with RecursionError; loops whose edges run through parameter types of a plug-in library (cleaned values that are lists /
+                tuples holding the referenced commands) are rejected like loops through the built-in parameter types
 """
 import itertools
 
@@ -164,6 +167,8 @@ def run(ctx):
     eems_cycles(ctx, model)
     api_extension(ctx)
     api_histories(ctx)
+    long_cycles(ctx)
+    plugin_parameter_cycles(ctx)
     return ctx.finish(
         rule="scenarios = (digraph on 1..3 commands enumerated completely [thorough: 4 sampled 1500], random digraphs on 4-6 commands with optional "
              "acyclic tails/components; edges realised as direct, list, nested-list or mixed references; 2-6 textual orders each); "
@@ -329,6 +334,314 @@ def api_histories(ctx):
             if out:
                 ctx.fail("a model evaluated by %s and then edited so that its source reads from the end of the chain (%s reference): run() %s" % (
                     first, style, out), {"history": first, "style": style})
+
+
+# ---------------------------------------------------------------- loops longer than the interpreter's stack is deep
+
+def long_model(rng, family, n, style, order):
+    """a cyclic model on about n commands.  family: ring (one loop through all commands) | self (a chain of n commands leading into a command that reads
+    itself) | ring3 / ring40 (a chain leading into a loop of 3 / 40) | two (two rings joined by one reference) | comb (a chain into a loop, every command
+    also listing a shared leaf).  Edge i -> j = "command i reads result j".  Returns the commands in file order: (result, command, argument, value)"""
+    edges = {}
+
+    def ringe(lo, hi):
+        for i in range(lo, hi):
+            edges.setdefault(i, []).append(i + 1 if i + 1 < hi else lo)
+    if family == "ring":
+        ringe(0, n)
+    elif family in ("self", "ring3", "ring40", "comb"):
+        k = {"self": 1, "ring3": 3, "ring40": 40, "comb": 2}[family]
+        ringe(0, k)                                   # the loop: commands 0..k-1
+        for i in range(k, k + n):                     # the chain: k reads k-1, k+1 reads k, ...: the far end is the only command nobody reads
+            edges.setdefault(i, []).append(i - 1)
+    elif family == "two":
+        ringe(0, n // 2); ringe(n // 2, n)
+        edges[n // 2].append(0)
+    leaf = "leaf" if family == "comb" else None
+    cmds = []
+    for i in range(max(edges) + 1):
+        deps = ["c%d" % j for j in edges.get(i, [])] + ([leaf] if leaf else [])
+        st = style if style != "alternating" else ("direct", "list", "nested")[i % 3]
+        if style == "eems":
+            cmds.append(("c%d" % i, "Copy", "InFieldName", deps[0]) if len(deps) == 1 else ("c%d" % i, "Sum", "InFieldNames", deps))
+        elif st == "direct" and len(deps) == 1:
+            cmds.append(("c%d" % i, "N", "One", deps[0]))
+        elif st == "nested":
+            cmds.append(("c%d" % i, "N", "Nested", [[d] for d in deps]))
+        else:
+            cmds.append(("c%d" % i, "N", "Many", deps))
+    if leaf:
+        cmds.append(("leaf", "EEMSRead", None, None) if style == "eems" else ("leaf", "N", None, None))
+    if order == "users-first":          # the walk over the commands in file order starts at the far end of the chain
+        cmds.reverse()
+    elif order == "shuffled":
+        rng.shuffle(cmds)
+    elif order == "interleaved":        # even-numbered commands first, then the odd ones backwards
+        cmds = cmds[0::2] + cmds[1::2][::-1]
+    return cmds
+
+
+def long_line(c):
+    res, cmd, arg, v = c
+    if arg is None:
+        return '%s = EEMSRead(InFileName = "in.csv", InFieldName = a)' % res if cmd == "EEMSRead" else "%s = %s()" % (res, cmd)
+    txt = v if isinstance(v, str) else "[%s]" % ", ".join(x if isinstance(x, str) else "[%s]" % ", ".join(x) for x in v)
+    return "%s = %s(%s = %s)" % (res, cmd, arg, txt)
+
+
+def long_cycles(ctx):
+    """C14 says a cyclic model never runs the interpreter out of stack: rings, and chains leading into a ring, of several times as many commands as the
+    recursion limit in force allows frames - in several file orders, with direct, list and nested references and over built-in commands: run() raises
+    RecursiveModelStructure and nothing has executed.  (A walk that keeps one frame per command on the path ends in RecursionError instead.)  Parsing costs 50
+    microseconds a command, so the models of thousands of commands are mostly put together with add_command in file order, those of hundreds read from text"""
+    import os, sys
+    from collections import OrderedDict
+    from mpilot.program import Program
+    rng = ctx.rng
+    prog.testlib()
+    tmp = common.tmpdir("mpv_c14long_")
+    open(os.path.join(tmp, "in.csv"), "w").write("a,b\n1,2\n3,4\n")
+    plan = []
+    # under the interpreter's usual limit (1000): 1300 .. 8000 commands; under a lowered limit (250, what an embedding application or a deep call site
+    # leaves): 400 .. 950 - every family in every order, sizes and styles rotating
+    fams = ["ring", "self", "ring3", "ring40", "two", "comb"]
+    orders = ["inputs-first", "users-first", "shuffled", "interleaved"]
+    styles = ["direct", "list", "nested", "alternating", "eems"]
+    k = rng.randrange(60)
+    for fam in fams:
+        for order in orders:
+            k += 1
+            plan.append((fam, [1300, 2100, 3400, 5000][k % 4] + rng.randrange(0, 200), styles[k % 5], order, 1000, "text" if k % 12 == 0 else "api"))
+            plan.append((fam, [400, 650, 900][k % 3] + rng.randrange(0, 50), styles[(k + 2) % 5], order, 250, "text"))
+    plan.append(("self", 8000, "direct", "users-first", 1000, "api"))
+    plan.append(("ring", 3000, "eems", "shuffled", 1000, "text"))
+    plan.append(("ring40", 3000, "list", "users-first", 1000, "text"))
+    for fam, n, style, order, limit, how in plan:
+        cmds = long_model(rng, fam, n, style, order)
+        total = len(cmds)
+        libs = progrun.EEMS_LIBS if style == "eems" else (prog.TESTLIB,)
+        rec = progrun.Recorder()
+        base, classes = progrun.library_classes(libs)
+        old = sys.getrecursionlimit()
+        p = None
+        with progrun.stubbed(classes, rec):
+            try:
+                if how == "text":
+                    p = Program.from_source("\n".join(long_line(c) for c in cmds) + "\n", libraries=libs, working_dir=tmp)
+                else:
+                    p = Program(libraries=libs, working_dir=tmp)
+                    for res, cmd, arg, v in cmds:
+                        p.add_command(p.find_command_class(cmd), res, OrderedDict([(arg, v)] if arg else [("InFileName", "in.csv"), ("InFieldName", "a")] if cmd == "EEMSRead" else []))
+            except BaseException as e:
+                p, out = None, "could not be built: " + progrun.classify(e)
+            if p is not None:
+                sys.setrecursionlimit(limit)
+                try:
+                    p.run()
+                    out = "returned normally (%d of %d commands finished)" % (sum(1 for c in p.commands.values() if c.is_finished), total)
+                except BaseException as e:
+                    out = progrun.classify(e)
+                    out = None if out.startswith("mp:RecursiveModelStructure") else "raised " + out
+                finally:
+                    sys.setrecursionlimit(old)
+        ctx.case("long %s %d %s %s %d %s" % (fam, total, style, order, limit, how), sample=None)
+        ctx.count("long_cycles")
+        ctx.count("long_cycle_commands", total)
+        desc = {"family": fam, "commands": total, "references": style, "file_order": order, "recursion_limit": limit, "libraries": list(libs),
+                "built": "Program.from_source(text)" if how == "text" else "Program.add_command(class, result, {argument: value}) in file order",
+                "source_first_lines": [long_line(c) for c in cmds[:4]], "source_last_lines": [long_line(c) for c in cmds[-3:]],
+                "rebuild": "harness.props.c14.long_model(rng, %r, %r, %r, %r), one line per command: long_line  (shuffled: any shuffle of the lines)" % (fam, n, style, order)}
+        if out:
+            ctx.fail("cyclic model of %d commands (%s, %s references, written %s) under recursion limit %d: run() %s instead of raising RecursiveModelStructure" % (
+                total, fam, style, order, limit, out), desc)
+        elif rec.log:
+            ctx.fail("cyclic model of %d commands (%s) rejected only after executing %r" % (total, fam, rec.log[:6]), desc)
+        del p
+
+
+# ---------------------------------------------------------------- loops through the parameter types of a plug-in library
+
+PLUGLIB = "mpverif_c14plug"
+
+PLUGIN_SRC = '''
+from mpilot import params
+from mpilot.arguments import Argument
+from mpilot.commands import Command
+from mpilot.exceptions import ParameterNotValid, ResultDoesNotExist
+
+
+def _raw(v):
+    return v.value if isinstance(v, Argument) else v
+
+
+def _lookup(name, program, lineno):
+    if isinstance(name, Command):
+        return name
+    try:
+        return program.commands[name]
+    except (KeyError, TypeError):
+        raise ResultDoesNotExist(name, lineno=lineno)
+
+
+class WeightedRefs(params.Parameter):
+    """[Result: weight, ...] -> [(command, weight), ...]"""
+
+    def clean(self, value, program=None, lineno=None):
+        if not isinstance(value, dict):
+            raise ParameterNotValid(value, "Weighted Results", lineno)
+        return [(_lookup(k, program, lineno), float(_raw(w))) for k, w in value.items()]
+
+
+class RefTuple(params.Parameter):
+    """[A, B, ...] -> (commandA, commandB, ...): a tuple"""
+
+    def clean(self, value, program=None, lineno=None):
+        if not isinstance(value, (list, tuple)):
+            raise ParameterNotValid(value, "Results", lineno)
+        return tuple(_lookup(_raw(x), program, lineno) for x in value)
+
+
+class RefGroups(params.Parameter):
+    """[[A, B], [C]] -> [(commandA, commandB), (commandC,)]: references one level down"""
+
+    def clean(self, value, program=None, lineno=None):
+        if not isinstance(value, (list, tuple)) or not all(isinstance(_raw(g), (list, tuple)) for g in value):
+            raise ParameterNotValid(value, "Result Groups", lineno)
+        return [tuple(_lookup(_raw(x), program, lineno) for x in _raw(g)) for g in value]
+
+
+class TaggedRefs(params.Parameter):
+    """[A, B] -> ("all", [commandA, commandB]): a tuple holding a label and the list"""
+
+    def clean(self, value, program=None, lineno=None):
+        if not isinstance(value, (list, tuple)):
+            raise ParameterNotValid(value, "Results", lineno)
+        return ("all", [_lookup(_raw(x), program, lineno) for x in value])
+
+
+class OwnResult(params.ResultParameter):
+    """the library's own kind of single reference"""
+
+    def clean(self, value, program=None, lineno=None):
+        return super(OwnResult, self).clean(_raw(value), program, lineno)
+
+
+class OwnList(params.ListParameter):
+    """the library's own kind of list: handed on as a tuple"""
+
+    def clean(self, value, program=None, lineno=None):
+        return tuple(super(OwnList, self).clean(value, program, lineno))
+
+
+class P(Command):
+    inputs = {"One": params.ResultParameter(required=False), "Many": params.ListParameter(params.ResultParameter(), required=False),
+              "Weighted": WeightedRefs(required=False), "Tuple": RefTuple(required=False), "Groups": RefGroups(required=False),
+              "Tagged": TaggedRefs(required=False), "Own": OwnResult(required=False), "OwnList": OwnList(params.ResultParameter(), required=False)}
+    output = params.BooleanParameter()
+
+    def execute(self, **kw):
+        raise NotImplementedError     # the harness puts its recording body here (progrun.stubbed)
+'''
+
+PLUGIN_KINDS = ("Weighted", "Tuple", "Groups", "Tagged", "Own", "OwnList")
+
+
+def pluglib():
+    import sys, types
+    if PLUGLIB not in sys.modules:
+        m = types.ModuleType(PLUGLIB)
+        sys.modules[PLUGLIB] = m
+        exec(compile(PLUGIN_SRC, PLUGLIB, "exec"), m.__dict__)
+    return sys.modules[PLUGLIB]
+
+
+def plugin_command(rng, name, deps, kind):
+    """command `name` reading `deps`, all of them through the plug-in parameter `kind` (Own holds one: the others go through another kind),
+    kind None = a random mixture with the built-in kinds"""
+    deps = list(deps)
+    args = []
+    if kind is None:
+        rng.shuffle(deps)
+        pool = list(PLUGIN_KINDS) + ["One", "Many"]
+        rng.shuffle(pool)
+        while deps:
+            kd = pool.pop()
+            take = 1 if kd in ("One", "Own") else rng.randrange(1, len(deps) + 1)
+            args += plugin_command(rng, name, deps[:take], kd)[2] if kd in PLUGIN_KINDS else [(kd, Name(deps[0]) if kd == "One" else [Name(d) for d in deps[:take]])]
+            deps = deps[take:]
+        return (name, "P", args)
+    if kind == "Own" and deps:
+        args.append(("Own", Name(deps.pop(0))))
+        kind = "Tuple"
+    if deps and kind == "Weighted":
+        uniq = [d for i, d in enumerate(deps) if d not in deps[:i]]
+        args.append(("Weighted", dict((d, "0.5") for d in uniq)))
+    elif deps and kind == "Groups":
+        cut = rng.randrange(0, len(deps) + 1)
+        args.append(("Groups", [[Name(d) for d in g] for g in (deps[:cut], deps[cut:]) if g or rng.random() < 0.5] or [[Name(d) for d in deps]]))
+    elif deps:
+        args.append((kind, [Name(d) for d in deps]))
+    return (name, "P", args)
+
+
+def plugin_parameter_cycles(ctx):
+    """C14 quantifies over programs, and a program may use a plug-in library with parameter types of its own.  Whatever cleaned value holds the referenced
+    commands in a list or tuple - pairs (command, weight), a tuple of commands, groups one level down, a labelled tuple, the library's own subclasses of
+    ResultParameter / ListParameter - is a reference like `[A, B]` of a ListParameter: a loop with an edge through it is rejected before anything runs,
+    and acyclic models over the same commands run, every command once"""
+    pluglib()
+    rng = ctx.rng
+    libs = (PLUGLIB,)
+    scs = []     # (scenario, cyclic, what)
+    # directed, every run: for every parameter kind a self-loop, a 2-loop whose other edge is a plain reference, a 3-loop with a consumer outside and
+    # a leaf, a loop whose every edge is of that kind - each in every file order (<= 24)
+    for kind in PLUGIN_KINDS:
+        models = [
+            [plugin_command(rng, "a", ["a"], kind)],
+            [plugin_command(rng, "a", ["b"], kind), ("b", "P", [("One", Name("a"))])],
+            [("k", "P", []), plugin_command(rng, "a", ["k", "c"], kind), ("b", "P", [("Many", [Name("a")])]), ("c", "P", [("One", Name("b"))]), ("t", "P", [("One", Name("a"))])],
+            [plugin_command(rng, "a", ["b"], kind), plugin_command(rng, "b", ["c", "c"], kind), plugin_command(rng, "c", ["a"], kind)],
+        ]
+        for cmds in models:
+            perms = list(itertools.permutations(cmds))
+            for perm in (perms if len(perms) <= 24 else rng.sample(perms, 12)):
+                scs.append((Scenario(list(perm), libs=libs), True, kind))
+        # the same commands without the closing reference run
+        acyc = [("k", "P", []), plugin_command(rng, "a", ["k", "k"], kind), plugin_command(rng, "b", ["a", "k"], kind), ("t", "P", [("One", Name("b"))])]
+        for perm in rng.sample(list(itertools.permutations(acyc)), 4):
+            scs.append((Scenario(list(perm), libs=libs), False, kind))
+    # every digraph on <= 2 commands, sampled ones on 3-5, edges through one plug-in kind or a mixture of all kinds
+    graphs_ = [(n, es) for n in (1, 2) for es in all_graphs(n)] + [(3, es) for es in rng.sample(list(all_graphs(3)), ctx.budget(10, 400))]
+    for _ in range(ctx.budget(10, 600)):
+        n = rng.choice([4, 5])
+        graphs_.append((n, set((rng.randrange(n), rng.randrange(n)) for _e in range(rng.randrange(n - 1, 2 * n)))))
+    for n, es in graphs_:
+        kind = rng.choice(PLUGIN_KINDS + (None, None))
+        cmds = [plugin_command(rng, "c%d" % i, ["c%d" % j for j in range(n) if (i, j) in es], kind) for i in range(n)]
+        for _o in range(2 if n > 1 else 1):
+            scs.append((Scenario(graphs.shuffled(rng, cmds), libs=libs), has_cycle(n, es), kind or "mixed"))
+    for sc, cyclic, kind in scs:
+        res = progrun.run_impl(sc, recursion_limit=600)
+        ctx.case("plugin " + sc.source, sample=None)
+        ctx.count("plugin_cyclic" if cyclic else "plugin_acyclic")
+        ctx.count("plugin_kind:" + kind)
+        desc = dict(sc.describe(), plugin_library="harness/props/c14.py PLUGIN_SRC (module %s)" % PLUGLIB, references_through=kind)
+        started = [e[1:] for e in res["log"] if e[0] == "+"]
+        if res["load"] != "ok":
+            ctx.fail("a model over the plug-in library could not be loaded: %s" % res["load"], desc)
+        elif cyclic:
+            o = res["ops"][0]
+            if not o.startswith("mp:RecursiveModelStructure"):
+                ctx.fail("cyclic model with references through a plug-in parameter (%s): run() %s (executed %r) instead of raising RecursiveModelStructure" % (
+                    kind, "returned normally" if o == "ok" else "raised " + o, started[:8]), desc)
+            elif res["log"]:
+                ctx.fail("cyclic model with references through a plug-in parameter (%s) rejected only after executing %r" % (kind, res["log"][:8]), desc)
+        else:
+            names = [c[0] for c in sc.commands]
+            if res["ops"][0] != "ok":
+                ctx.fail("acyclic model with references through a plug-in parameter (%s) rejected: %s" % (kind, res["ops"]), desc)
+            elif sorted(started) != sorted(names):
+                ctx.fail("acyclic model with references through a plug-in parameter (%s): executed %r, expected every command once" % (kind, started), desc)
 
 
 def replay(path):
